@@ -77,6 +77,24 @@ def endTimes : List Rat → List Rat
       let tl := endTimes (d' :: rest)
       olderEndTime (tl.headD 0) d' :: tl
 
+/-! ### `DemesUtil.slice`: epochs of one deme -/
+
+/-- `_shift_deme_time`: the loop `for e in v:` over the epochs of a deme, `st` = its start time -/
+def shiftEpochs (t : Rat) : ETime → List InEpoch → List OutEpoch
+  | _, [] => []
+  | st, e :: rest =>
+      let r := shiftStep t st e
+      if r.2.2 then [r.1] else r.1 :: shiftEpochs t r.2.1 rest
+
+/-- what slicing at `t` must give: epochs older than `t` keep their sizes and are shifted; the epoch that contains `t` ends at 0
+    with the size its own size function has at `t` — interpolated between its ORIGINAL start (the previous epoch's original end,
+    or the deme's start) and its original end; younger epochs are dropped -/
+def sliceSpec (t : Rat) : ETime → List InEpoch → List OutEpoch
+  | _, [] => []
+  | st, e :: rest =>
+      if e.et ≤ t then [{ fn := e.fn, ss := e.ss, es := sliceSizeAt e.fn t e.ss e.es st e.et, et := 0 }]
+      else { fn := e.fn, ss := e.ss, es := some (Sym.r e.es), et := e.et - t } :: sliceSpec t (some e.et) rest
+
 /-! ### expected wiring (specifications as Boolean predicates over the generated tables) -/
 
 def look (c : IntegCall) (p : Slot) : Option Slot := c.args.lookup p
